@@ -5,6 +5,7 @@
   Helper lemmas: WB/Lemmas/C10.lean.
 -/
 import WB.Lemmas.C10
+import WB.Lemmas.C10Names
 
 namespace WB.C10
 
@@ -133,5 +134,62 @@ theorem old_rule_loses_weight :
     sOld.resultAll = some (wsum sOld.pts + 1 / 100000000) ∧ sNew.resultAll = some (wsum sNew.pts) ∧
     wsum sNew.pts = 1 / 10000000000 := by
   decide +kernel
+
+/-! ## storage names (why `KP.file` may be treated as the K-point's own file)
+
+  `NEvent` histories cover fresh runs and any number of restarts at any point (`NEvent.restart`), any numbers of new
+  points per iteration and any deletions of new points by the run-level `exclude_equiv_points`. -/
+
+omit [Field K] in
+/-- T5.  With the naming rule of the code (name = position in K_list, assigned at the top of the loop body for the
+    points behind `nk_prev`): after every event of every history, every K-point of the list is stored under the name
+    that equals its position, and reading that file back yields its own result; no dump ever lacked a path. -/
+theorem storage_names_own_file (events : List (NEvent K)) (i : Nat) (p : NP K)
+    (hp : (nrun NameRule.atIterStart events).pts[i]? = some p) :
+    p.ev = true ∧ p.name = some i ∧ readBack (nrun NameRule.atIterStart events) p = some p.r ∧
+      (nrun NameRule.atIterStart events).err = false := by
+  have h := ninv_run (K := K) events
+  obtain ⟨h1, h2, h3⟩ := allNamed_get _ 0 _ h.named i p hp
+  simp only [Nat.zero_add] at h2 h3
+  refine ⟨h1, h2, ?_, h.ok⟩
+  unfold readBack
+  rw [h2]
+  exact h3
+
+omit [Field K] in
+/-- T5 (injectivity).  Distinct K-points of the list never share a storage file. -/
+theorem storage_names_injective_on_live_points (events : List (NEvent K)) (i j : Nat) (p q : NP K)
+    (hp : (nrun NameRule.atIterStart events).pts[i]? = some p)
+    (hq : (nrun NameRule.atIterStart events).pts[j]? = some q) (hij : i ≠ j) :
+    p.name ≠ q.name ∧ p.name.isSome = true := by
+  obtain ⟨_, h1, _, _⟩ := storage_names_own_file events i p hp
+  obtain ⟨_, h2, _, _⟩ := storage_names_own_file events j q hq
+  rw [h1, h2]
+  exact ⟨by intro h; exact hij (Option.some.inj h), rfl⟩
+
+/-- non-vacuity: 2 initial points; an iteration with 3 new points of which the one at position 3 is deleted; a
+    restart; an iteration with 2 new points -/
+example :
+    let s := nrun NameRule.atIterStart
+      [NEvent.iter [(10 : Rat), 11] [], NEvent.iter [20, 21, 22] [3], NEvent.restart, NEvent.iter [30, 31] []]
+    s.pts.map (·.name) = [some 0, some 1, some 2, some 3, some 4, some 5] ∧
+    s.pts.map (readBack s) = [some 10, some 11, some 20, some 22, some 30, some 31] := by decide +kernel
+
+/-- the seeded rule T-C10 (names assigned after divide() but BEFORE exclude_equiv_points deletes duplicates) is
+    wrong: the survivor behind a deleted point keeps a name beyond the end of the list, the next iteration hands the
+    same name to a new point, whose dump overwrites the file — the earlier point reads back a foreign result. -/
+theorem names_before_deletion_collide :
+    let s := nrun NameRule.beforeDelete [NEvent.iter [(10 : Rat)] [], NEvent.iter [20, 21] [1], NEvent.iter [30] []]
+    s.pts.map (·.r) = [10, 21, 30] ∧ s.pts.map (·.name) = [some 0, some 2, some 2] ∧
+    s.pts.map (readBack s) = [some 10, some 30, some 30] := by decide +kernel
+
+/-- the seeded rule T-C11 (name = number of K-points processed by THIS call) is right in an uninterrupted run and
+    wrong after a restart: the counter starts again at 0 and the new point overwrites `_Kp-0.pickle`. -/
+theorem per_run_counter_overwrites_after_restart :
+    let fresh := nrun NameRule.perRunCounter [NEvent.iter [(10 : Rat), 11] [], NEvent.iter [20] []]
+    let split := nrun NameRule.perRunCounter [NEvent.iter [(10 : Rat), 11] [], NEvent.restart, NEvent.iter [20] []]
+    fresh.pts.map (readBack fresh) = [some 10, some 11, some 20] ∧
+    split.pts.map (·.name) = [some 0, some 1, some 0] ∧
+    split.pts.map (readBack split) = [some 20, some 11, some 20] := by decide +kernel
 
 end WB.C10
